@@ -143,6 +143,7 @@ func (c *c08) DumpCase(seed uint64, idx int) []Case {
 		if r.chance(500) {
 			base.Opts.Entry = "file"
 		}
+		respellRoot(&base.Project, r)
 		return []Case{base}
 	case idx < c.nCut+c.nFS:
 		base.Kind = "fs"
@@ -294,7 +295,7 @@ func crashViolation(cs *Case, r *Result) *Case {
 func (c *c08) checkCut(cs *Case, record bool) *Case {
 	singleText, _ := cs.Extra["single"].(string)
 	single := Project{Root: cs.Project.Root, Cwd: cs.Project.Cwd}
-	single.set(single.Root, []byte(singleText))
+	single.set(cs.Project.absRoot(), []byte(singleText))
 	ref, _ := c.exec(&single, cs.Opts, cs.Env, nil, cs.Seed)
 	got, disk := c.exec(&cs.Project, cs.Opts, cs.Env, nil, cs.Seed)
 	if record {
